@@ -17,8 +17,7 @@ def check_dfa(acc, spec, L, scheme='s', morph=False):
     from gambatools.dfa_algorithms import dfa_accepts_word
     rp = {'fn': 'mc.props.c01:one_dfa', 'mode': 'plain', 'params': {'spec': spec, 'L': L, 'scheme': scheme}}
     if morph:
-        rp = {'fn': 'mc.props.c01:one_morph', 'mode': 'plain', 'params': {'kind': 'dfa', 'prev': acc.data.get('prev_dfa'), 'spec': spec, 'L': L}}
-        acc.data['prev_dfa'] = spec
+        rp = {'fn': 'mc.props.c01:t_morph', 'mode': 'plain', 'params': dict(acc.data.get('ctx', {}), upto=spec)}
     Q, Sg, delta, q0, F = spaces.dfa_parts(spec, scheme)
     ok, D = core.lib_call(acc, 'DFA()', spec, spaces.morph_dfa if morph else spaces.build_dfa, spec, scheme, repro=rp)
     if not ok:
@@ -51,8 +50,7 @@ def check_nfa(acc, spec, L, scheme='s', eps='', enc='sparse', closures=True, mor
     rp = {'fn': 'mc.props.c01:one_nfa', 'mode': 'plain', 'params': params}
     inst = {'nfa': spec, 'scheme': scheme, 'eps': eps, 'enc': enc}
     if morph:
-        rp = {'fn': 'mc.props.c01:one_morph', 'mode': 'plain', 'params': {'kind': 'nfa', 'prev': acc.data.get('prev_nfa'), 'spec': spec, 'L': L}}
-        acc.data['prev_nfa'] = spec
+        rp = {'fn': 'mc.props.c01:t_morph', 'mode': 'plain', 'params': dict(acc.data.get('ctx', {}), upto=spec)}
         inst['presented_as'] = 'one live object rewritten in place after earlier queries'
     Q, Sg, T, q0, F = spaces.nfa_parts(spec, scheme, eps)
     ok, N = core.lib_call(acc, 'NFA()', inst, spaces.morph_nfa if morph else spaces.build_nfa, spec, scheme, eps, enc, repro=rp)
@@ -110,29 +108,26 @@ def one_nfa(acc, spec, L, scheme='s', eps='', enc='sparse', closures=True):
     check_nfa(acc, spec, L, scheme, eps, enc, closures)
 
 
-def one_morph(acc, kind, prev, spec, L):
-    """Replay of a morphing counterexample: the previous instance is queried first, then the object is rewritten."""
+def t_morph(acc, kind, space, L, shard, nshard, upto=None):
+    """One live object rewritten in place for every instance of the shard (in enumeration order).  With `upto` the
+    walk stops after that instance: this is how a counterexample of this layer is replayed."""
     def tup(x):
         return tuple(tup(y) for y in x) if isinstance(x, list) else x
+    upto = tup(upto) if upto is not None else None
+    space = tup(space)
     spaces._LIVE.clear()
-    for s_ in (prev, spec):
-        if s_ is None:
-            continue
-        if kind == 'dfa':
-            check_dfa(acc, tup(s_), L, morph=True)
-        else:
-            check_nfa(acc, tup(s_), L, morph=True)
-    acc.data.clear()
-
-
-def t_morph(acc, kind, space, L, shard, nshard):
-    spaces._LIVE.clear()
+    acc.data['ctx'] = {'kind': kind, 'space': space, 'L': L, 'shard': shard, 'nshard': nshard}
     if kind == 'dfa':
         for idx in range(shard, spaces.dfa_size(*space), nshard):
-            check_dfa(acc, spaces.dfa_spec(space[0], space[1], idx), L, morph=True)
+            spec = spaces.dfa_spec(space[0], space[1], idx)
+            check_dfa(acc, spec, L, morph=True)
+            if spec == upto:
+                break
     else:
         for idx, spec in spaces.shard(_nfa_space(space), shard, nshard):
             check_nfa(acc, spec, L, closures=True, morph=True)
+            if spec == upto:
+                break
     acc.data.clear()
     acc.c['instances_presented_by_rewriting_one_live_object'] += acc.states
 
